@@ -95,8 +95,8 @@ class Batch:
         for m in self.mods:
             if m.dropped:
                 continue
-            open(os.path.join(self.dir, "src", "m", "m%d.rs" % m.idx), "w").write(m.rs)
-            open(os.path.join(self.dir, "src", "m", "m%d.wgsl" % m.idx), "w").write(m.wgsl)
+            open(os.path.join(self.dir, "src", "m", "m%d.rs" % m.idx), "w", newline="", encoding="utf-8").write(m.rs)
+            open(os.path.join(self.dir, "src", "m", "m%d.wgsl" % m.idx), "w", newline="", encoding="utf-8").write(m.wgsl)
             main.append('#[path = "m/m%d.rs"] pub mod m%d;' % (m.idx, m.idx))
             for pn, src in m.probes.items():
                 if pn in m.probe_errors:
